@@ -230,6 +230,7 @@ class Plucker(SMUserList):
             # zero or one arguments passed
             if super().arghandler(v, convertfrom=(SE3,)):
                 return
+            raise ValueError('bad argument to constructor')
 
         else:
             # additional arguments
